@@ -149,6 +149,9 @@ K("awkward_ListOffsetArray_reduce_nonlocal_nextstarts_64",
   extents={"nextstarts": "ghost_nstarts"},
   ghost={"ghost_nstarts": ([], None)},
   requires=["forall(q, 0, nextlen, 0 <= nextparents[q] < ghost_nstarts)"],
+  # C03: the start of group p is the position of the first element whose parent is p
+  loops={"L0": ["0 <= i", "implies(i == 0, lastnextparent == 0 - 1)", "implies(i > 0, lastnextparent == nextparents[i - 1])"]},
+  store_asserts={"nextstarts": ["at == nextparents[i]", "value == i", "i == 0 or nextparents[i - 1] != nextparents[i]"]},
   serves=["C03", "C12", "C13"])
 
 K("awkward_ListOffsetArray_compact_offsets",
@@ -229,6 +232,13 @@ for nm in ["awkward_carry_SliceJagged_nextcarry", "awkward_carry_SliceJagged_off
       extents=dict({"fromoffsets": "ghost_noffsets"}, **({} if "nextcarry" in nm else {"tooffsets": "carrylen + 1"})),
       ghost={"ghost_noffsets": ([], None), "ghost_ncarry": ([], None)},
       requires=["forall(q, 0, carrylen, 0 <= fromcarry[q] and fromcarry[q] + 1 < ghost_noffsets)"],
+      # C01: carrying a jagged slice keeps, for every selected list, its length (offsets) and its element positions in order
+      **({"store_asserts": {"tocarry": ["at == k", "value == j", "fromoffsets[fromcarry[i]] <= value and value < fromoffsets[fromcarry[i] + 1]"]}}
+         if "nextcarry" in nm else
+         {"loops": {"L0": ["0 <= i", "tooffsets[0] == 0",
+                           "forall(q, 0, i, tooffsets[q + 1] - tooffsets[q] == fromoffsets[fromcarry[q] + 1] - fromoffsets[fromcarry[q]])"]},
+          "ensures_ok": ["tooffsets[0] == 0",
+                         "forall(q, 0, carrylen, tooffsets[q + 1] - tooffsets[q] == fromoffsets[fromcarry[q] + 1] - fromoffsets[fromcarry[q]])"]}),
       serves=["C01", "C12", "C13"])
 
 # ---------------------------------------------------------------- sorting ranges
